@@ -963,6 +963,12 @@ func c08LengthAlgebra(w *World, r *Report) {
 				break
 			}
 		}
+		// every element of a presized result is written on every path (an untouched element is a zero byte)
+		for i, u := range ep.Unwritten {
+			if u > 0 && bad == "" {
+				bad = fmt.Sprintf("for an input of %d byte(s) a path of Encode returns a presized buffer of which %d element(s) were never written: they keep the zero byte, which is not in the codec's alphabet (a control character in a DNS name)", lengths[i], u)
+			}
+		}
 		// size budgets: the output is at most ceil(n*Ratio())+1 symbols long
 		if fd := w.Decl(methodOf(n, "Ratio")); fd != nil && bad == "" {
 			ratio := -1.0
